@@ -433,7 +433,7 @@ func genTmpl(t *rapid.T, s Schema, forbidden map[string]bool) []gen.TmplPart {
 		}
 	}
 	if rapid.IntRange(0, 9).Draw(t, "tmpl-fail") == 0 {
-		parts = append(parts, gen.TmplPart{Kind: rapid.SampledFrom([]string{"fail_unixToTime", "fail_regex"}).Draw(t, "tmpl-failkind"), A: "nosuchlabel"})
+		parts = append(parts, gen.TmplPart{Kind: rapid.SampledFrom([]string{"fail_unixToTime", "fail_regex", "fail_field", "fail_argtype", "fail_argcount", "fail_index"}).Draw(t, "tmpl-failkind"), A: "nosuchlabel"})
 	}
 	return parts
 }
